@@ -413,9 +413,11 @@ impl WalManager {
 
         // Replace active log
         let mut guard = self.active_log.lock();
-        if let Some(old_log) = guard.take() {
-            // Ensure old log is flushed
-            drop(old_log);
+        if let Some(mut old_log) = guard.take() {
+            // Make the retired file durable before it is replaced: every later
+            // sync() only touches the new file.
+            old_log.writer.flush()?;
+            old_log.writer.get_ref().sync_all()?;
         }
         *guard = Some(new_log);
 
